@@ -108,6 +108,16 @@ def sc_options_during(r, threads):
     return s + [("send", "quit")]
 
 
+def sc_slow_waiter(r, threads):
+    """many back-to-back one-ply searches: each `go` meets its predecessor running, just finishing, or just finished (run with slow
+    condition-variable waiters, harness/slowwait.c); every go must still get its bestmove and the engine must stay responsive"""
+    s = prologue(threads)
+    for _ in range(r.choice([60, 100, 140])):
+        s += [("send", "position startpos"), ("send", "go depth 1"), ("sleep", r.choice([0.0, 0.0, 0.0005, 0.001, 0.002, 0.004, 0.008]))]
+    s += [("bmall", 20), ("send", "isready"), ("line", "readyok", 10)]
+    return s + [("send", "quit")]
+
+
 SCRIPTS = {"go-stop": sc_go_stop, "go-finish": sc_go_finish, "ponder-ponderhit": sc_ponderhit, "ponder-stop": sc_ponder_stop,
            "back-to-back-go": sc_back_to_back, "threads-change": sc_threads_change, "quit-during-search": sc_quit_during,
            "options-during-search": sc_options_during}
@@ -372,5 +382,18 @@ def run(ctx):
     ctx.log(f"{len(sess)} sessions in {time.time() - t0:.1f}s")
     nev = judge(ctx, sess, "protocol-acceptor")
     ctx.log(f"{nev} events replayed")
+    # slow condition-variable waiters: a wait predicate changed outside its mutex loses the wake-up almost surely instead of once in a million
+    shim = os.path.join(vlib.BUILD, "slowwait.so")
+    cc = subprocess.run(["gcc", "-shared", "-fPIC", "-O1", "-o", shim, os.path.join(vlib.VERIF, "harness", "slowwait.c"), "-ldl"], capture_output=True, text=True)
+    if cc.returncode != 0:
+        ctx.violation("cannot build harness/slowwait.c: " + cc.stderr[-300:], {"kind": "harness-build"}, no_input=True)
+    else:
+        sw = make_sessions(ctx, binary, net, 2 if quick else 10, [1, 3] if quick else [1, 2, 3, 5, 8], want_events=False, scripts={"slow-waiter": sc_slow_waiter})
+        for x in sw:
+            x.env["LD_PRELOAD"] = shim; x.env["VERIF_SLOWWAIT_US"] = "2000"
+        t0 = time.time()
+        run_sessions(sw, 4 if quick else 6)
+        ctx.log(f"{len(sw)} slow-waiter sessions in {time.time() - t0:.1f}s")
+        judge(ctx, sw, "slow-waiter-outcome", check_accept=False)
     if not quick:
         vlib.leanchecker(ctx, ["TexelVerif.Props.C10"])
